@@ -179,7 +179,8 @@ BytesCase ==
                tr |-> IF d.ok THEN Triples(d.node) ELSE << >>,
                h |-> IF d.ok THEN TreeHash(NodeTree(d.node)) ELSE << >>,
                canon |-> cn,
-               lt_ok |-> lt.ok, lt |-> lt.v])
+               lt_ok |-> lt.ok, lt |-> lt.v,
+               mb |-> MemBoundFor(c.b, d), mbu |-> MemBoundFor(c.b, d) + AllocatorReserve])
 
 \* C29: the machine with a limited writer = EncodeLimited, and the refusal falls where the
 \* byte L+1 of the full output lies
